@@ -27,6 +27,7 @@ import PercevalModel.Lemmas.C18Ext
 import PercevalModel.Lemmas.C18Race
 import PercevalModel.Lemmas.C18More
 import PercevalModel.Lemmas.C18Refine
+import PercevalModel.Lemmas.C18W10
 
 namespace PM.C18
 open PM.SM
@@ -1361,11 +1362,93 @@ call level, while the padded block lets the worker enter the task -/
 example : (after true cfg0 [.execAsync call0, .tReturn ret0]).fnCalls = 0 ∧
     (rafter true cfg0 ([Ev.execAsync call0, .tReturn ret0].flatMap seqBlock)).fnCalls = 1 := by decide
 
+/-! # Wave 10: end of the task ⟶ the answer of the next call, in ONE statement, for ALL schedules
+(helpers: `Lemmas/C18W10.lean`)
+
+Wave 7 proved the pieces separately (the worker ends within 6 / 3 of its own steps; no API call waits; after the end
+a status query / `get_results()` answers the outcome) and left their composition to the reader, with the
+intermediate facts `wpc = .dead o` and `cpc = .idle` as HYPOTHESES of the observation theorems.  Here these two
+hypotheses are discharged: from 'the task is in flight' alone, through ANY continuation `w2` of the schedule in which
+the caller begins no further call and which is fair to both threads (the worker gets its 3 / 6 accesses, the caller
+the accesses the call it is inside of still needs — `cgo`, 0 if it is idle, never more than 10), the next
+`job.status` observation / `get_results()` answers the truthful final state.  Fairness stays a hypothesis: the
+schedule is the environment's. -/
+
+/-- A RAISE IS REPORTED AS ERROR, END TO END.  The task (in flight) raises exception (`c`, `t`); after any fair
+continuation `w2` without a new call, `job.status` + the three reads answer `(ERROR, '<type>: <message>', progress)`
+in five accesses and the caller is idle again — whatever the interleaving, whatever the cancel flag. -/
+theorem race_raise_reported_end_to_end (cfg : Cfg) (w1 w2 : List REv) (c t : Nat)
+    (h : (rafter true cfg w1).wpc = .inTask) (hn : 3 ≤ wCount w2) (hb : noBegin w2 = true)
+    (hc : (rafter true cfg (w1 ++ [.task (.raise c t)])).cpc.cgo ≤ cCount w2) :
+    (rstep true cfg (rafter true cfg ((w1 ++ .task (.raise c t) :: w2) ++ [.begin .status, .c, .c, .c, .c])) .c).2 =
+      .step .rProg (some (.status .error (.task c t) (rafter true cfg (w1 ++ .task (.raise c t) :: w2)).prog)) ∧
+    (rafter true cfg ((w1 ++ .task (.raise c t) :: w2) ++ [.begin .status, .c, .c, .c, .c, .c])).cpc = .idle :=
+  w10_raise_reported cfg w1 w2 c t h hn hb hc
+
+/-- A RETURN IS REPORTED AS SUCCESS OR CANCELED, END TO END.  The task (in flight) returns `r`; after any fair
+continuation without a new call the status observation answers `(SUCCESS, None, progress)` or `(CANCELED, 'User has
+canceled the job', progress)` — never RUNNING, never ERROR, never a mixed pair; CANCELED only if `cancel()` has
+written the flag, and CANCELED whenever it had done so before the return. -/
+theorem race_return_reported_end_to_end (cfg : Cfg) (w1 w2 : List REv) (r : Ret)
+    (h : (rafter true cfg w1).wpc = .inTask) (hn : 6 ≤ wCount w2) (hb : noBegin w2 = true)
+    (hc : (rafter true cfg (w1 ++ [.task (.ret r)])).cpc.cgo ≤ cCount w2) :
+    ∃ cn : Bool,
+      (rstep true cfg (rafter true cfg ((w1 ++ .task (.ret r) :: w2) ++ [.begin .status, .c, .c, .c, .c])) .c).2 =
+        .step .rProg (some (.status (if cn then .canceled else .success) (if cn then .canceled else .none)
+          (rafter true cfg (w1 ++ .task (.ret r) :: w2)).prog)) ∧
+      (rafter true cfg ((w1 ++ .task (.ret r) :: w2) ++ [.begin .status, .c, .c, .c, .c, .c])).cpc = .idle ∧
+      (cn = true → (rafter true cfg (w1 ++ .task (.ret r) :: w2)).cancelReq = true) ∧
+      ((rafter true cfg w1).cancelReq = true → cn = true) :=
+  w10_return_reported cfg w1 w2 r h hn hb hc
+
+/-- A RETURNED VALUE IS HANDED OUT, END TO END.  Same situation; `get_results()` answers the value (converted once
+if a conversion is pending, and keeps it) in five accesses: never 'still running', never 'not available' — provided
+the conversion function is defined on the task's value (`hv`; the manifest's 'mapping function is total'; this
+hypothesis is about the conversion, not about the schedule, and stays). -/
+theorem race_return_results_end_to_end (cfg : Cfg) (w1 w2 : List REv) (r v : Ret)
+    (h : (rafter true cfg w1).wpc = .inTask) (hn : 6 ≤ wCount w2) (hb : noBegin w2 = true)
+    (hc : (rafter true cfg (w1 ++ [.task (.ret r)])).cpc.cgo ≤ cCount w2)
+    (hv : if (rafter true cfg (w1 ++ .task (.ret r) :: w2)).mapPending
+          then convertRet (rafter true cfg (w1 ++ .task (.ret r) :: w2)).mapping r = some v
+          else (rafter true cfg (w1 ++ .task (.ret r) :: w2)).results = v) :
+    (rstep true cfg (rafter true cfg ((w1 ++ .task (.ret r) :: w2) ++ [.begin .get, .c, .c, .c, .c])) .c).2 =
+      .step .rSt (some (.results v)) ∧
+    (rafter true cfg ((w1 ++ .task (.ret r) :: w2) ++ [.begin .get, .c, .c, .c, .c, .c])).cpc = .idle ∧
+    (rafter true cfg ((w1 ++ .task (.ret r) :: w2) ++ [.begin .get, .c, .c, .c, .c, .c])).results = v ∧
+    (rafter true cfg ((w1 ++ .task (.ret r) :: w2) ++ [.begin .get, .c, .c, .c, .c, .c])).mapPending = false :=
+  w10_return_results cfg w1 w2 r v h hn hb hc hv
+
+/-- non-vacuity of the three: a caller preempted inside `get_results()` when the task ends (its call needs 10 more
+accesses), worker and caller interleaved afterwards; and the conversion hypothesis holds for the pending conversion
+of `cfg1` -/
+example : (rafter true cfg1 [.exec call0, .w, .begin .get]).wpc = .inTask ∧
+    (rafter true cfg1 ([.exec call0, .w, .begin .get] ++ [.task (.ret ret0)])).cpc.cgo = 10 ∧
+    (rafter true cfg1 ([.exec call0, .w, .begin .get] ++ [.task (.raise 0 1)])).cpc.cgo = 10 ∧
+    noBegin [REv.c, .w, .c, .w, .c, .w, .c, .c, .c, .c, .c, .c, .c, .w, .w, .w] = true ∧
+    wCount [REv.c, .w, .c, .w, .c, .w, .c, .c, .c, .c, .c, .c, .c, .w, .w, .w] = 6 ∧
+    cCount [REv.c, .w, .c, .w, .c, .w, .c, .c, .c, .c, .c, .c, .c, .w, .w, .w] = 10 ∧
+    (rafter true cfg1 ([.exec call0, .w, .begin .get] ++ .task (.ret ret0) ::
+      [.c, .w, .c, .w, .c, .w, .c, .c, .c, .c, .c, .c, .c, .w, .w, .w])).mapPending = true ∧
+    convertRet (rafter true cfg1 ([.exec call0, .w, .begin .get] ++ .task (.ret ret0) ::
+      [.c, .w, .c, .w, .c, .w, .c, .c, .c, .c, .c, .c, .c, .w, .w, .w])).mapping ret0 =
+      some (.dict (.mapped (.nat 7) [(2, some 3)])) := by decide
+
+/-- the fairness hypothesis on the worker is needed: granted only five of its six accesses after the return (thread
+still alive), the conclusion fails — the status call of the same schedule does not consist of these five accesses
+followed by the answering read of the progress (that step is not enabled there) -/
+example : (rafter true cfg0 ([.exec call0, .w] ++ .task (.ret ret0) :: [.w, .w, .w, .w, .w])).alive = true ∧
+    (rstep true cfg0 (rafter true cfg0 (([.exec call0, .w] ++ .task (.ret ret0) :: [.w, .w, .w, .w, .w]) ++
+      [.begin .status, .c, .c, .c, .c])) .c).2 = .disabled := by decide
+
 /- STILL NOT PROVED (wave 7): the other inclusion of the refinement (every PREEMPTED schedule of the access-level
 machine has a call-level linearisation), see the section comment above.  The theorems of this wave give the
 ingredients (every call and the worker's epilogue end in a bounded number of their own steps; the final state, the
 observation and the value after the end are those of the call-level machine; non-preempting schedules are call-level
 histories) but the simulation for preempted schedules is not stated.  Fairness is a hypothesis in the termination
-theorems (`wCount` / `cCount` of the continuation): the schedule is the environment's. -/
+theorems (`wCount` / `cCount` of the continuation): the schedule is the environment's.
+WAVE 10: the intermediate hypotheses `wpc = .dead o` / `cpc = .idle` of the observation theorems are discharged
+(`race_raise_reported_end_to_end`, `race_return_reported_end_to_end`, `race_return_results_end_to_end`: from 'task in
+flight' to the answer of the next call, for all fair schedules without a further call in between); fairness, the
+totality of the conversion and the simulation for preempted schedules remain as they were. -/
 
 end PM.C18
